@@ -62,7 +62,7 @@ Example noop_example :
   let pr := [(1, Fn [] [10] [100] 1 7 false); (2, Fn [1] [11] [101] 2 8 false); (3, Fn [2; 1] [] [] 3 9 false);
              (10, Src 50); (11, Src 100)] in
   let w := mkWorld pr [(50, CLit 1)] [] 1 0 [] [] in
-  let c := mkCfg false false [] false [] [] in
+  let c := mkCfg false false [] false [] [] [] in
   let o1 := build c w 3 in
   link_ok pr = true /\ topo_ok pr [] (order_of pr 3) = true /\
   o_ran o1 = [1; 2; 3] /\ forallb (fun lv => result_ok (v_res (snd lv))) (o_vis o1) = true /\
